@@ -786,7 +786,13 @@ def correspondence_values(ctx, drv, table, n_pairs):
             try:
                 heq = hash(fa) == hash(fb)
                 eq = fb in {fa: 1}          # the cache's own mechanism: equal hash, then ==
-                raw_eq = bool(fa == fb)
+                try:
+                    raw_eq = bool(fa == fb)
+                except Exception:
+                    # `==` itself fails (e.g. numpy scalar against a huge Python int through an untyped comparison): the
+                    # cache never gets there when the hashes differ; nothing to say about hash consistency for this pair
+                    raw_eq = None
+                    ctx.count("pairs:raw-eq-raised")
             except TypeError:
                 # unhashable leaf that fell through (not generated) – or a comparison that does not return a bool
                 raise core.MachineryError(f"generated value not hashable/comparable after freezing: {a!r} / {b!r}")
